@@ -27,6 +27,7 @@ KINDS = {
     'matrix1x1': lambda n: D(n, 'g', 'p', 'matrix', 0, 1, 1),
     'matrix2x2': lambda n: D(n, 'g', 'p', 'matrix', 0, 2, 2),
     'matrix6x5': lambda n: D(n, 'g', 'p', 'matrix', 0, 6, 5),
+    'matrix2x5': lambda n: D(n, 'g', 'p', 'matrix', 0, 2, 5),
 }
 
 
@@ -123,7 +124,7 @@ def _note(st, bad):
 def _worker_combos(rank, n, tier):
     st = dict(cases=0, viol={})
     idx = 0
-    for kind in ('plain', 'strip2', 'matrix2x2'):
+    for kind in ('plain', 'strip2', 'matrix2x2', 'matrix2x5'):
         w = world.World((KINDS[kind]('L'),))       # one world at a time: a World rebinds the injection container
         for combo in itertools.product(BOUNDARY, repeat=4):
             for power in (0, 65535):
